@@ -72,7 +72,7 @@
    and waits for outbuf_lock.  The critical section of outbuf_lock in
    send_continue (append, counters, sent_continue, _flush_some) and in
    write_soon is ONE step: while a thread is inside it no other thread can append
-   (flushing -- even the unlocked flush of handle_write, finding F18 -- removes
+   (flushing -- since fix 8bcf05e always under outbuf_lock -- removes
    bytes from the front and never reorders appends), so the ORDER OF APPENDS,
    which is all this model records ([outlog]), is the order of these steps.
    Unlocked reads of `requests` (service(): requests[0], len(requests) > 1;
